@@ -2,6 +2,8 @@
 C13 — Replies depend only on the request: stateless per-request version adaptation.
 
 Model   : lean/JRV/Model/ConfigHeap.lean (configurations as aliasable heap objects)
+          lean/JRV/Model/ConfigHeapConc.lean (dispatcher threads with the statements of the version adaptation as
+          atomic steps, interleaved arbitrarily on one shared heap; C13_concurrent*)
 Theorems: lean/JRV/Properties/C13.lean
 Tie     : extracted write footprint of the serve path and Config.copy structure (tools/extractors/footprint.py)
           + correspondence: (a) reply forms of random request histories on one real dispatcher vs the model,
@@ -18,6 +20,7 @@ import pyval
 
 REQUIRED_THEOREMS = [
     "C13_frame_entry", "C13_frame", "C13_history_free", "C13_form", "C13_copy_independent",
+    "C13_concurrent", "C13_concurrent_schedule", "C13_concurrent_progress", "C13_concurrent_needs_copy",
     "C13_gen_sharedWrites", "C13_gen_versionStoreOnCopy", "C13_gen_copyDuplicates",
 ]
 
